@@ -699,6 +699,18 @@ func updateBalanceMetric(tx *txn, matureInflow, matureOutflow, immatureInflow, i
 		return nil
 	}
 
+	// block timestamps do not increase monotonically: a reverted block is
+	// older than the blocks that were applied after it and the blocks of a
+	// competing chain can be older than the blocks they replace. The current
+	// balance is read from the most recent data point, so a change must
+	// never be recorded before it.
+	var latest int64
+	if err := tx.QueryRow(`SELECT COALESCE(MAX(date_created), 0) FROM host_stats WHERE stat IN (?, ?)`, metricWalletBalance, metricWalletImmatureBalance).Scan(&latest); err != nil {
+		return fmt.Errorf("failed to query latest balance timestamp: %w", err)
+	} else if t := time.Unix(latest, 0); t.After(timestamp) {
+		timestamp = t
+	}
+
 	// prepare the increment statement
 	increment, done, err := incrementCurrencyStatStmt(tx)
 	if err != nil {
